@@ -372,8 +372,10 @@ func TestC03(t *testing.T) {
 			}
 			c.stepOverride = 40000000
 			defer func() { c.stepOverride = 0 }()
-			for _, n := range c.scaleSizes([]int{1000, 5000}, []int{20000, 70000}) {
+			for _, n := range c.scaleSizes([]int{7, 8, 9, 10, 15, 16, 17, 31, 32, 33, 63, 64, 65, 127, 128, 129, 255, 256, 257, 1000, 5000}, []int{20000, 70000}) {
 				c.c03Program(s, "scale", scaleNames(n))
+				// the same inside a function activation (parameters count as names of that scope)
+				c.c03Program(s, "scale", bn.KwFun+" big(p0, p1) {\n"+scaleNames(n)+"}\nbig(1, 2);\n")
 			}
 			for _, d := range c.scaleSizes([]int{100, 500}, []int{1000, 2000}) {
 				c.c03Program(s, "scale", scaleScopes(d))
